@@ -2,6 +2,7 @@
    Only statements; every proof is `exact <lemma>`.  The `Check` lines pin the
    statements so that a weakened statement no longer compiles. *)
 From EP Require Import Base.Bytes Checksum.Spec Checksum.Model Checksum.Proofs.
+From EP Require Import Checksum.ProtoTypes Checksum.ProtoSpec Checksum.Proto Checksum.ProtoProofs.
 
 (* the helper modules, both widths, both host endiannesses, every length *)
 Theorem C09_helper64 : forall e bs, bytes_ok bs ->
@@ -80,3 +81,291 @@ Proof.
 Qed.
 Example C09_ex_carry : U64.add_slice LE 18446744073709551615 [255; 255; 1] = 65536.
 Proof. vm_compute; reflexivity. Qed.
+
+(* ====================================================================== *)
+(* PROTOCOL LEVEL: every checksum the crate computes, fills in or validates
+   equals the RFC's definition  rfc1071 (pseudo header ++ header with zero
+   checksum field ++ payload)  -- Checksum/ProtoSpec.v, written from RFC 791,
+   768, 9293, 8200 8.1, 792, 4443, 2236/3376 -- for ALL field values,
+   addresses and payloads of any length; the crate's range checks
+   (ValueTooBigError) appear on the right-hand sides.                      *)
+
+(* Ipv4Header::calc_header_checksum (options included, checksum field skipped) *)
+Theorem C09_ipv4_header : forall e h, ipv4_hdr_ok h ->
+  ipv4_calc_header_checksum e h = ipv4_header_checksum_spec h.
+Proof. exact ipv4_header_checksum_correct. Qed.
+Print Assumptions C09_ipv4_header.
+
+(* UdpHeader::calc_checksum_ipv4(_raw): the pseudo header carries the header's
+   Length FIELD (see C09_udp_length_field_note below) *)
+Theorem C09_udp_ipv4 : forall e h src dst payload,
+  udp_hdr_ok h -> ip4_ok src -> ip4_ok dst -> bytes_ok payload ->
+  udp_calc_checksum_ipv4_raw e h src dst payload =
+    if 65527 <? len payload then CErrTooBig (len payload) 65527
+    else COk (udp4_spec src dst h (u_length h) payload).
+Proof. exact udp_ipv4_raw_correct. Qed.
+Print Assumptions C09_udp_ipv4.
+
+(* UdpHeader::calc_checksum_ipv6(_raw) *)
+Theorem C09_udp_ipv6 : forall e h src dst payload,
+  udp_hdr_ok h -> ip6_ok src -> ip6_ok dst -> bytes_ok payload ->
+  udp_calc_checksum_ipv6_raw e h src dst payload =
+    if 4294967287 <? len payload then CErrTooBig (len payload) 4294967287
+    else COk (udp6_spec src dst h (u_length h) payload).
+Proof. exact udp_ipv6_raw_correct. Qed.
+Print Assumptions C09_udp_ipv6.
+
+(* UdpHeader::with_ipv4_checksum / with_ipv6_checksum: length := 8 + |payload| *)
+Theorem C09_udp_with_ipv4 : forall e sport dport src dst payload,
+  sport < 65536 -> dport < 65536 -> ip4_ok src -> ip4_ok dst -> bytes_ok payload ->
+  udp_with_ipv4_checksum e sport dport src dst payload =
+    if 65527 <? len payload then UWErrTooBig (len payload) 65527
+    else let h := udp_hdr_for sport dport payload in
+         UWOk h (udp4_spec src dst h (8 + len payload) payload).
+Proof. exact udp_with_ipv4_correct. Qed.
+Print Assumptions C09_udp_with_ipv4.
+
+Theorem C09_udp_with_ipv6 : forall e sport dport src dst payload,
+  sport < 65536 -> dport < 65536 -> ip6_ok src -> ip6_ok dst -> bytes_ok payload ->
+  udp_with_ipv6_checksum e sport dport src dst payload =
+    if 65527 <? len payload then UWErrTooBig (len payload) 65527
+    else let h := udp_hdr_for sport dport payload in
+         UWOk h (udp6_spec src dst h (8 + len payload) payload).
+Proof. exact udp_with_ipv6_correct. Qed.
+Print Assumptions C09_udp_with_ipv6.
+
+(* with a length field that describes the payload the pseudo header carries the
+   actual datagram length *)
+Theorem C09_udp_ipv4_consistent : forall e h src dst payload,
+  udp_hdr_ok h -> ip4_ok src -> ip4_ok dst -> bytes_ok payload ->
+  u_length h = 8 + len payload ->
+  udp_calc_checksum_ipv4_raw e h src dst payload = COk (udp4_spec src dst h (8 + len payload) payload).
+Proof. exact udp_ipv4_raw_consistent. Qed.
+Print Assumptions C09_udp_ipv4_consistent.
+
+Theorem C09_udp_ipv6_consistent : forall e h src dst payload,
+  udp_hdr_ok h -> ip6_ok src -> ip6_ok dst -> bytes_ok payload ->
+  u_length h = 8 + len payload ->
+  udp_calc_checksum_ipv6_raw e h src dst payload = COk (udp6_spec src dst h (8 + len payload) payload).
+Proof. exact udp_ipv6_raw_consistent. Qed.
+Print Assumptions C09_udp_ipv6_consistent.
+
+(* OBSERVATION (not hidden): calc_checksum_ipv4/6(_raw) range-check payload.len()
+   but put self.length into the pseudo header.  For a header whose length field
+   does not describe the payload the result is not the checksum over a pseudo
+   header with the actual length 8 + |payload|: witness length = 8, payload = [1] *)
+Theorem C09_udp_actual_length_reading_refuted :
+  exists h src dst payload,
+    udp_hdr_ok h /\ ip4_ok src /\ ip4_ok dst /\ bytes_ok payload /\ len payload <= 65527 /\
+    exists v, udp_calc_checksum_ipv4_raw LE h src dst payload = COk v /\
+              v <> udp4_spec src dst h (8 + len payload) payload.
+Proof. exact udp_actual_length_reading_refuted. Qed.
+Print Assumptions C09_udp_actual_length_reading_refuted.
+
+(* a computed UDP checksum is never 0 (0 is replaced by 0xffff: no_zero in the spec) *)
+Theorem C09_udp_nonzero : forall e h sport dport src4 dst4 src6 dst6 payload,
+  udp_hdr_ok h -> sport < 65536 -> dport < 65536 ->
+  ip4_ok src4 -> ip4_ok dst4 -> ip6_ok src6 -> ip6_ok dst6 -> bytes_ok payload ->
+  (forall v, udp_calc_checksum_ipv4_raw e h src4 dst4 payload = COk v -> v <> 0) /\
+  (forall v, udp_calc_checksum_ipv6_raw e h src6 dst6 payload = COk v -> v <> 0) /\
+  (forall h' v, udp_with_ipv4_checksum e sport dport src4 dst4 payload = UWOk h' v -> v <> 0) /\
+  (forall h' v, udp_with_ipv6_checksum e sport dport src6 dst6 payload = UWOk h' v -> v <> 0).
+Proof. exact udp_nonzero. Qed.
+Print Assumptions C09_udp_nonzero.
+
+(* TcpHeader::calc_checksum_ipv4(_raw) / _ipv6(_raw): options included,
+   TCP length = header_len + |payload| *)
+Theorem C09_tcp_ipv4 : forall e h src dst payload,
+  tcp_hdr_ok h -> ip4_ok src -> ip4_ok dst -> bytes_ok payload ->
+  tcp_calc_checksum_ipv4_raw e h src dst payload =
+    if 65535 - tcp_header_len h <? len payload
+    then CErrTooBig (len payload) (65535 - tcp_header_len h)
+    else COk (tcp4_spec src dst h payload).
+Proof. exact tcp_ipv4_raw_correct. Qed.
+Print Assumptions C09_tcp_ipv4.
+
+Theorem C09_tcp_ipv6 : forall e h src dst payload,
+  tcp_hdr_ok h -> ip6_ok src -> ip6_ok dst -> bytes_ok payload ->
+  tcp_calc_checksum_ipv6_raw e h src dst payload =
+    if 4294967295 - tcp_header_len h <? len payload
+    then CErrTooBig (len payload) (4294967295 - tcp_header_len h)
+    else COk (tcp6_spec src dst h payload).
+Proof. exact tcp_ipv6_raw_correct. Qed.
+Print Assumptions C09_tcp_ipv6.
+
+(* TcpHeaderSlice::calc_checksum_ipv4(_raw) / _ipv6(_raw): raw header bytes,
+   bytes 16..18 skipped; never panics on a slice produced by from_slice *)
+Theorem C09_tcp_ipv4_header_slice : forall e hdr src dst payload,
+  tcp_hslice_ok hdr -> ip4_ok src -> ip4_ok dst -> bytes_ok payload ->
+  tcp_hslice_calc_checksum_ipv4_raw e hdr src dst payload =
+    if 65535 - len hdr <? len payload then CErrTooBig (len payload) (65535 - len hdr)
+    else COk (tcp4_raw_spec src dst hdr payload).
+Proof. exact tcp_hslice_ipv4_correct. Qed.
+Print Assumptions C09_tcp_ipv4_header_slice.
+
+Theorem C09_tcp_ipv6_header_slice : forall e hdr src dst payload,
+  tcp_hslice_ok hdr -> ip6_ok src -> ip6_ok dst -> bytes_ok payload ->
+  tcp_hslice_calc_checksum_ipv6_raw e hdr src dst payload =
+    if 4294967295 - len hdr <? len payload then CErrTooBig (len payload) (4294967295 - len hdr)
+    else COk (tcp6_raw_spec src dst hdr payload).
+Proof. exact tcp_hslice_ipv6_correct. Qed.
+Print Assumptions C09_tcp_ipv6_header_slice.
+
+(* the hypothesis tcp_hslice_ok is what TcpHeaderSlice::from_slice establishes *)
+Theorem C09_tcp_header_slice_inv : forall bs hdr,
+  bytes_ok bs -> tcp_header_slice_from_slice bs = Some hdr ->
+  tcp_hslice_ok hdr /\ hdr = take (len hdr) bs.
+Proof. exact tcp_header_slice_from_slice_ok. Qed.
+Print Assumptions C09_tcp_header_slice_inv.
+
+(* TcpSlice::calc_checksum_ipv4 / _ipv6: header ++ payload in one slice; an
+   odd-length payload is the tail of the LAST piece *)
+Theorem C09_tcp_ipv4_slice : forall e hdr data src dst,
+  bytes_ok hdr -> bytes_ok data -> 20 <= len hdr -> ip4_ok src -> ip4_ok dst ->
+  tcp_slice_calc_checksum_ipv4 e (hdr ++ data) src dst =
+    if 65535 <? len hdr + len data then CErrTooBig (len hdr + len data) 65535
+    else COk (tcp4_raw_spec src dst hdr data).
+Proof. exact tcp_slice_ipv4_correct. Qed.
+Print Assumptions C09_tcp_ipv4_slice.
+
+Theorem C09_tcp_ipv6_slice : forall e hdr data src dst,
+  bytes_ok hdr -> bytes_ok data -> 20 <= len hdr -> ip6_ok src -> ip6_ok dst ->
+  tcp_slice_calc_checksum_ipv6 e (hdr ++ data) src dst =
+    if 4294967295 <? len hdr + len data then CErrTooBig (len hdr + len data) 4294967295
+    else COk (tcp6_raw_spec src dst hdr data).
+Proof. exact tcp_slice_ipv6_correct. Qed.
+Print Assumptions C09_tcp_ipv6_slice.
+
+(* Icmpv4Type::calc_checksum = Icmpv4Header::with_checksum / update_checksum *)
+Theorem C09_icmpv4 : forall e t payload,
+  icmp4_ok t -> bytes_ok payload -> icmp4_calc_checksum e t payload = icmp4_spec t payload.
+Proof. exact icmp4_correct. Qed.
+Print Assumptions C09_icmpv4.
+
+(* Icmpv6Type::calc_checksum = Icmpv6Header::with_checksum / update_checksum:
+   pseudo header with the 32 bit message length and next header 58 *)
+Theorem C09_icmpv6 : forall e t src dst payload,
+  icmp6_ok t -> ip6_ok src -> ip6_ok dst -> bytes_ok payload ->
+  icmp6_calc_checksum e t src dst payload =
+    if 4294967287 <? len payload then CErrTooBig (len payload) 4294967287
+    else COk (icmp6_spec src dst t payload).
+Proof. exact icmp6_correct. Qed.
+Print Assumptions C09_icmpv6.
+
+(* IgmpHeader::calc_checksum = with_checksum *)
+Theorem C09_igmp : forall e t payload,
+  igmp_ok t -> bytes_ok payload -> igmp_calc_checksum e t payload = igmp_spec t payload.
+Proof. exact igmp_correct. Qed.
+Print Assumptions C09_igmp.
+
+(* TransportHeader::update_checksum_ipv4 / _ipv6 store the RFC value *)
+Theorem C09_update_checksum_ipv4 : forall e th src dst payload,
+  transport_ok th -> ip4_ok src -> ip4_ok dst -> bytes_ok payload ->
+  update_checksum_ipv4 e th src dst payload = update4_spec th src dst payload.
+Proof. exact update_checksum_ipv4_correct. Qed.
+Print Assumptions C09_update_checksum_ipv4.
+
+Theorem C09_update_checksum_ipv6 : forall e th src dst payload,
+  transport_ok th -> ip6_ok src -> ip6_ok dst -> bytes_ok payload ->
+  update_checksum_ipv6 e th src dst payload = update6_spec th src dst payload.
+Proof. exact update_checksum_ipv6_correct. Qed.
+Print Assumptions C09_update_checksum_ipv6.
+
+(* Icmpv6Slice::is_checksum_valid does NOT recompute-and-compare: it sums the
+   pseudo header and the message as received (stored checksum included) and
+   tests ones_complement() == 0.  That is exactly "the complete sum folds to
+   0xffff", also in the 0x0000 / 0xffff corner (C09_ex_valid_corner).  The
+   bound is the 32 bit length field of the pseudo header; Icmpv6Slice::from_slice
+   rejects longer slices, so `slice.len() as u32` never truncates. *)
+Theorem C09_valid_iff : forall e slice src dst,
+  ip6_ok src -> ip6_ok dst -> bytes_ok slice -> len slice < 4294967296 ->
+  icmp6_is_checksum_valid e slice src dst = icmp6_valid_spec src dst slice.
+Proof. exact icmp6_valid_iff. Qed.
+Print Assumptions C09_valid_iff.
+
+(* what calc_checksum fills in is accepted by the validation *)
+Theorem C09_filled_is_valid : forall src dst t payload,
+  icmp6_ok t -> ip6_ok src -> ip6_ok dst -> len payload <= 4294967287 ->
+  icmp6_valid_spec src dst (icmp6_wire t (icmp6_spec src dst t payload) ++ payload) = true.
+Proof. exact icmp6_filled_is_valid. Qed.
+Print Assumptions C09_filled_is_valid.
+
+(* ---- non-vacuity: concrete headers satisfy the hypotheses, concrete values -- *)
+Definition ex_a4 : ip4 := (192, 168, 1, 42).
+Definition ex_b4 : ip4 := (10, 0, 0, 1).
+Definition ex_a6 : bytes := [32;1;13;184;0;0;0;0;0;0;0;0;0;0;0;1].
+Definition ex_b6 : bytes := [254;128;0;0;0;0;0;0;2;0;0;255;254;0;0;9].
+Definition ex_ip : ipv4_hdr := {| v4_dscp := 10; v4_ecn := 1; v4_total_len := 1234; v4_ident := 4660;
+  v4_df := true; v4_mf := false; v4_frag_off := 291; v4_ttl := 64; v4_proto := 17;
+  v4_src := ex_a4; v4_dst := ex_b4; v4_options := [1;2;3;4] |}.
+Definition ex_udp : udp_hdr := {| u_sport := 1234; u_dport := 53; u_length := 11 |}.
+Definition ex_tcp : tcp_hdr := {| t_sport := 80; t_dport := 40000; t_seq := 305419896;
+  t_ack_no := 2271560481; t_ns := true; t_fin := false; t_syn := true; t_rst := false; t_psh := true;
+  t_ack := true; t_urg := false; t_ece := true; t_cwr := false; t_window := 65535; t_urgent := 7;
+  t_options := [2;4;5;180] |}.
+Definition ex_tcp_raw : bytes :=
+  [0;80;156;64;18;52;86;120;135;101;67;33;97;90;255;255;171;205;0;7;2;4;5;180].
+
+Ltac ex_ok := repeat first [ split | apply Forall_cons | apply Forall_nil | exact I | reflexivity
+                           | (unfold byte_ok; lia) | lia
+                           | (vm_compute; reflexivity) | (vm_compute; discriminate) ].
+
+Example C09_ex_hyps :
+  ipv4_hdr_ok ex_ip /\ udp_hdr_ok ex_udp /\ tcp_hdr_ok ex_tcp /\ tcp_hslice_ok ex_tcp_raw /\
+  ip4_ok ex_a4 /\ ip4_ok ex_b4 /\ ip6_ok ex_a6 /\ ip6_ok ex_b6 /\
+  icmp4_ok (I4TimestampRequest 1 2 305419896 2271560481 4294967295) /\
+  icmp6_ok (I6RouterAdvertisement 64 true false 1800) /\
+  igmp_ok (GQueryWithSources 100 (224, 0, 0, 1) 10 125 1) /\
+  transport_ok (THTcp ex_tcp) /\ u_length ex_udp = 8 + len [1; 2; 3].
+Proof.
+  unfold ipv4_hdr_ok, udp_hdr_ok, tcp_hdr_ok, tcp_hslice_ok, ip4_ok, ip6_ok, bytes_ok, ex_ip, ex_udp,
+    ex_tcp, ex_tcp_raw, ex_a4, ex_b4, ex_a6, ex_b6; cbn.
+  ex_ok.
+Qed.
+
+Example C09_ex_values :
+  ipv4_calc_header_checksum LE ex_ip = 20930 /\
+  udp_calc_checksum_ipv4_raw LE ex_udp ex_a4 ex_b4 [1; 2; 3] = COk 11004 /\
+  udp_calc_checksum_ipv6_raw LE ex_udp ex_a6 ex_b6 [1; 2; 3] = COk 51595 /\
+  udp_with_ipv4_checksum LE 1234 53 ex_a4 ex_b4 [1; 2; 3] = UWOk ex_udp 11004 /\
+  tcp_calc_checksum_ipv4_raw LE ex_tcp ex_a4 ex_b4 [1; 2; 3] = COk 63275 /\
+  tcp_calc_checksum_ipv6_raw LE ex_tcp ex_a6 ex_b6 [1; 2; 3] = COk 38331 /\
+  tcp_header_slice_from_slice (ex_tcp_raw ++ [1; 2; 3]) = Some ex_tcp_raw /\
+  tcp_hslice_calc_checksum_ipv4_raw LE ex_tcp_raw ex_a4 ex_b4 [1; 2; 3] = COk 63275 /\
+  tcp_hslice_calc_checksum_ipv6_raw LE ex_tcp_raw ex_a6 ex_b6 [1; 2; 3] = COk 38331 /\
+  tcp_slice_calc_checksum_ipv4 LE (ex_tcp_raw ++ [1; 2; 3]) ex_a4 ex_b4 = COk 63275 /\
+  tcp_slice_calc_checksum_ipv6 LE (ex_tcp_raw ++ [1; 2; 3]) ex_a6 ex_b6 = COk 38331 /\
+  icmp4_calc_checksum LE (I4TimestampRequest 1 2 305419896 2271560481 4294967295) [] = 49097 /\
+  icmp4_calc_checksum LE (I4EchoRequest 4660 1) [104; 105; 33] = 23649 /\
+  icmp6_calc_checksum LE (I6EchoRequest 4660 1) ex_a6 ex_b6 [104; 105; 33] = COk 46807 /\
+  icmp6_calc_checksum LE (I6RouterAdvertisement 64 true false 1800) ex_a6 ex_b6 [1;1;0;1;2;3;4;5] = COk 64990 /\
+  igmp_calc_checksum LE (GQueryWithSources 100 (224, 0, 0, 1) 10 125 1) [10; 0; 0; 7] = 64020 /\
+  update_checksum_ipv4 LE (THTcp ex_tcp) ex_a4 ex_b4 [1; 2; 3] = UpdOk 63275 /\
+  update_checksum_ipv4 LE (THIcmp6 I6Redirect) ex_a4 ex_b4 [] = UpdErrIcmpv6InIpv4.
+Proof. vm_compute. repeat split; reflexivity. Qed.
+
+(* the error side of the range checks is reachable with small headers only
+   through the length: shown on the model with an abstract payload length is
+   not computable, so the examples use the slice variant with 65536 bytes *)
+Example C09_ex_too_big :
+  tcp_slice_calc_checksum_ipv4 LE (ex_tcp_raw ++ repeat 0 65512) ex_a4 ex_b4 = CErrTooBig 65536 65535.
+Proof. vm_compute. reflexivity. Qed.
+
+(* validation: the echo request carrying the computed checksum 46807 = 0xb6d7
+   is accepted, a corrupted one is rejected *)
+Example C09_ex_valid :
+  icmp6_is_checksum_valid LE [128;0;182;215;18;52;0;1;104;105;33] ex_a6 ex_b6 = true /\
+  icmp6_is_checksum_valid LE [128;0;182;214;18;52;0;1;104;105;33] ex_a6 ex_b6 = false.
+Proof. vm_compute. split; reflexivity. Qed.
+
+(* the 0x0000 / 0xffff corner: with all-zero addresses the message
+   [0xff 0xbd 0 0 0 0 0 0] (sum of everything else = 0xffff) has the computed
+   checksum 0x0000; it is accepted with the field 0x0000 AND with 0xffff (both
+   complete sums fold to 0xffff: +0 / -0 of one's complement arithmetic) *)
+Example C09_ex_valid_corner :
+  let z := repeat 0 16 in
+  icmp6_calc_checksum LE (I6Unknown 255 189 0 0 0 0) z z [] = COk 0 /\
+  icmp6_is_checksum_valid LE [255;189;0;0;0;0;0;0] z z = true /\
+  icmp6_is_checksum_valid LE [255;189;255;255;0;0;0;0] z z = true /\
+  icmp6_valid_spec z z [255;189;255;255;0;0;0;0] = true.
+Proof. vm_compute. repeat split; reflexivity. Qed.
